@@ -703,7 +703,7 @@ func definitelyError(v ssa.Value) bool {
 // that keeps "a rejected operation changes nothing": after the first step succeeded, every return of a non-nil error
 // lies behind a compensating delete/unlink.
 func ruleEFFcomposite(w *World, r *Report) {
-	r.Doc("EFF-composite", "in an engine function that calls several journaling operations and can return an error, every error return that is reachable after one of those calls succeeded lies behind a compensating VDelete/VUnlink/KVDelete/VDeleteIndex", 1)
+	r.Doc("EFF-composite", "in an engine function that calls several journaling operations and can return an error, every error return that is reachable after one of those calls succeeded lies behind the call that undoes that very step (VAdd→VDelete of the same id, VLink→VUnlink, KVSet→KVDelete, VCreate→VDeleteIndex); after a step that changes a record in place (VSetMetadata, VReinforce, VUnlink, VDelete) no error return is reachable at all", 1)
 	ops := map[*types.Func]bool{}
 	for _, fi := range w.journalingOps() {
 		ops[fi.Obj] = true
@@ -755,9 +755,33 @@ func ruleEFFcomposite(w *World, r *Report) {
 			if len(errValues(c)) > 0 {
 				blocked = failureEdges(fn, c)
 			}
-			found, wit := pathQuery{fn: fn, target: errReturn, avoid: isComp, blocked: blocked}.find(posOf(m))
+			// what undoes this step: a step that CREATES something is undone by deleting that very thing (same id
+			// argument); a step that changes something in place (metadata merge, reinforce, unlink, delete) cannot be
+			// undone at all, so no error return may follow it
 			callee := shortName(calleeObj(&c.Call))
-			r.Cond(!found, "EFF-composite", fmt.Sprintf("%s:step#%d:%s:later-rejection-is-undone", name, i+1, callee), w.Pos(m.Pos()), "every error return after this step succeeded lies behind a compensating delete/unlink", name+" can return an error after its step "+callee+" has already taken effect (and was journaled) without undoing it: the caller sees a rejected request, but part of it is in the database now and after every restart — for instance edges that point at the id of a node that was never created", w.witness(wit)...)
+			undoneBy := map[string]string{"Engine.VAdd": "Engine.VDelete", "Engine.VAddBatch": "Engine.VDelete", "Engine.VLink": "Engine.VUnlink", "Engine.KVSet": "Engine.KVDelete", "Engine.VCreate": "Engine.VDeleteIndex"}[callee]
+			avoid := func(in ssa.Instruction) bool {
+				if undoneBy == "" || !isComp(in) {
+					return false
+				}
+				cc := in.(*ssa.Call)
+				if callee == "Engine.VLink" && shortName(calleeObj(&cc.Call)) == "Engine.VDelete" && len(cc.Call.Args) > 2 && len(c.Call.Args) > 3 {
+					// deleting one endpoint removes the edge with it (the delete cascade)
+					return sameVal(cc.Call.Args[2], c.Call.Args[2]) || sameVal(cc.Call.Args[2], c.Call.Args[3])
+				}
+				if shortName(calleeObj(&cc.Call)) != undoneBy {
+					return false
+				}
+				// the thing deleted is the thing created: index and id arguments are the same values
+				for k := 1; k <= 2 && k < len(cc.Call.Args) && k < len(c.Call.Args); k++ {
+					if isStringType(cc.Call.Args[k].Type()) && isStringType(c.Call.Args[k].Type()) && !sameVal(cc.Call.Args[k], c.Call.Args[k]) {
+						return false
+					}
+				}
+				return true
+			}
+			found, wit := pathQuery{fn: fn, target: errReturn, avoid: avoid, blocked: blocked}.find(posOf(m))
+			r.Cond(!found, "EFF-composite", fmt.Sprintf("%s:step#%d:%s:later-rejection-is-undone", name, i+1, callee), w.Pos(m.Pos()), "every error return after this step succeeded lies behind the call that undoes this very step (none exists for a step that changes a record in place: then no error return follows it)", name+" can return an error after its step "+callee+" has already taken effect (and was journaled) without undoing it (deleting some OTHER node does not undo it): the caller sees a rejected request, but part of it is in the database now and after every restart — for instance edges that point at the id of a node that was never created", w.witness(wit)...)
 		}
 	}
 	r.Count("composite_operations", n)
